@@ -53,7 +53,9 @@ type c02Template struct {
 }
 
 var (
-	c02ExprFill  = []string{"a", "(a)", "b.c", "b.c()", "g(1)", "1", `"s"`, "a + b", "x", "n", "q", "func() {}"}
+	c02ExprFill  = []string{"a", "(a)", "b.c", "b.c()", "g(1)", "1", `"s"`, "a + b", "x", "n", "q", "func() {}",
+		// pairs that differ only in a token go/ast encodes as position validity
+		"g(b...)", "g(b)", "func() { type T = int }", "func() { type T int }", "func() { var (\n\tv int\n) }", "func() { var v int }"}
 	c02IdentFill = []string{"a", "b", "x", "n", "q"}
 	c02TypeFill  = []string{"int", "b.T", "[]int", "x", "q", "n"}
 )
@@ -62,7 +64,7 @@ func c02Templates() []c02Template {
 	return []c02Template{
 		{id: "call2", kind: "expr", holes: 2, minus: "f(%[1]s, %[2]s)", plus: "mark(%[2]s, %[1]s)", file: "package p\n\nfunc _() {\n\tf(%[1]s, %[2]s)\n}\n", fill: [][]string{c02ExprFill, c02ExprFill}},
 		{id: "call3", kind: "expr", holes: 3, minus: "f(%[1]s, %[2]s, %[3]s)", plus: "mark(%[3]s, %[1]s, %[2]s)", file: "package p\n\nfunc _() {\n\tf(%[1]s, %[2]s, %[3]s)\n}\n",
-			fill: [][]string{{"a", "(a)", "b.c", "g(1)", "x", "q"}, {"a", "b.c", "b.c()", "g(1)", "n", "q"}, {"a", "(a)", "b.c", "g(1)", "x", "n"}}},
+			fill: [][]string{{"a", "(a)", "b.c", "g(1)", "x", "q", "g(b...)", "g(b)"}, {"a", "b.c", "b.c()", "g(1)", "n", "q"}, {"a", "(a)", "b.c", "g(1)", "x", "n", "g(b...)", "g(b)"}}},
 		{id: "binary", kind: "expr", holes: 2, minus: "%[1]s + %[2]s", plus: "mark(%[1]s, %[2]s)", file: "package p\n\nvar _ = %[1]s + %[2]s\n", fill: [][]string{c02ExprFill, c02ExprFill}},
 		{id: "selector", kind: "expr", holes: 2, minus: "%[1]s.%[2]s", plus: "mark(%[1]s).%[2]s", file: "package p\n\nvar _ = %[1]s.%[2]s\n", fill: [][]string{{"a", "(a)", "b.c", "g(1)", "x", "n", "q"}, c02IdentFill}, identOnly: []bool{false, true}},
 		{id: "funcname", kind: "decl", holes: 2, minus: "func %[1]s() { %[2]s() }", plus: "func %[1]s() { mark(%[2]s) }", file: "package p\n\nfunc %[1]s() { %[2]s() }\n", fill: [][]string{c02IdentFill, {"a", "b.c", "x", "n", "q", "g(1)"}}, identOnly: []bool{true, false}},
